@@ -1668,9 +1668,9 @@ class Evaluator:
         ".all": ["axis"], ".cumsum": ["axis"],
     }
 
-    def _canon_args(self, names, pos, kws, star=False):
+    def _canon_args(self, names, pos, kws, star=False, force=False):
         """arguments bound to the parameter names (all as keywords): f(a, 0) and f(a, axis=0) are one call"""
-        if not self.exact or star or names is None or any(k == "**" for k, _ in kws) or len(pos) > len(names):
+        if not (self.exact or force) or star or names is None or any(k == "**" for k, _ in kws) or len(pos) > len(names):
             return pos, kws
         if any((self.ctx.head_of(x) or ("",))[0] == "star" for x in pos):
             return pos, kws
@@ -1686,7 +1686,7 @@ class Evaluator:
 
     def _new(self, cls, pos, kws, base=None):
         c = self.ctx
-        if self.exact and cls != "?":
+        if cls != "?":
             init = self.repo.resolve_method(cls, "__init__")
             if init is None and cls in self.repo.classes:
                 # a mix-in without constructor (`cls(...)` in _FieldIO_HDF5): the constructor of the one class built on it
@@ -1696,7 +1696,9 @@ class Evaluator:
                 if len(inits) == 1:
                     init = self.repo.resolve_method(subs[0], "__init__")
             if init is not None:
-                pos, kws = self._canon_args(self._repo_params(init, True), pos, kws)
+                # constructor arguments are bound to their parameters in every mode: Field(mesh, 3, v) IS
+                # Field(mesh=mesh, nvdim=3, value=v)
+                pos, kws = self._canon_args(self._repo_params(init, True), pos, kws, force=True)
         kws = sorted(kws, key=lambda kv: kv[0])
         return c.mk(("new", cls, tuple(k for k, _ in kws)), pos + [v for _, v in kws], cls if cls != "?" else None)
 
